@@ -1,0 +1,16 @@
+//go:build verif
+
+// Machine-checked contracts for package plonk (comment-only, build tag `verif`).
+package plonk
+
+//@ func NewPlonkChip(api frontend.API, commonData types.CommonCircuitData) (res *PlonkChip)
+//@   props C17
+//@   circuit
+//@   flag trusted
+//@   ensures true
+
+//@ func (p *PlonkChip) Verify(proofChallenges variables.ProofChallenges, openings variables.OpeningSet, publicInputsHash poseidon.GoldilocksHashOut)
+//@   props C17
+//@   circuit
+//@   flag trusted
+//@   ensures true
